@@ -13,7 +13,8 @@
    Flags (repaired variants, see the C40 files in proposed_fixes):
      fx_float   : safe mode keeps C double only when every assigned type is a float type
      fx_bint    : safe mode keeps C bint only when the name is not used in arithmetic (else object);
-                  the ~ operator counts as arithmetic for the marking
+                  (~ is not arithmetic for the marking: "d = 1; ~d" keeps d a C long, which the
+                  repository tests fix; ~ of a C bint is typed C int through the dumped tables)
      fx_closure : arithmetic uses inside inner scopes mark the captured (outer) entry            *)
 From Coq Require Import ZArith List Bool.
 From CyVerif Require Import Lib.CInt.
@@ -190,7 +191,6 @@ Fixpoint mark (fx : flags) (flag inner : bool) (e : expr) : list nat :=
   | EBin o a b => if is_bitwise o then mark fx flag inner a ++ mark fx flag inner b
                   else mark fx true inner a ++ mark fx true inner b
   | EUn Neg a => mark fx true inner a
-  | EUn Inv a => mark fx (flag || fx_bint fx) inner a
   | EUn _ a => mark fx flag inner a
   | ECmp a b => mark fx false inner a ++ mark fx false inner b
   | ECond c a b => mark fx false inner c ++ mark fx false inner a ++ mark fx false inner b
